@@ -105,7 +105,7 @@ class Ctx:
     # ---- verdicts ----------------------------------------------------------
     def replay_dir(self, key):
         h = hashlib.sha1(key.encode()).hexdigest()[:10]
-        d = os.path.join(VERIF, "replay", "%s-%s" % (self.prop, h))
+        d = os.path.join(os.environ.get("VERIF_REPLAY_DIR") or os.path.join(VERIF, "replay"), "%s-%s" % (self.prop, h))
         shutil.rmtree(d, ignore_errors=True)
         os.makedirs(d)
         return d
@@ -130,8 +130,9 @@ class Ctx:
               "coverage": cov, "assumptions": self.assumptions,
               "wall_s": round(time.time() - self.t0, 1), "violations": len(self.violations),
               "known_findings_hit": [k["what"] for k in self.known_hits]}
-        os.makedirs(os.path.join(VERIF, "evidence"), exist_ok=True)
-        with open(os.path.join(VERIF, "evidence", self.prop + ".json"), "w") as f:
+        evdir = os.environ.get("VERIF_EVIDENCE_DIR") or os.path.join(VERIF, "evidence")
+        os.makedirs(evdir, exist_ok=True)
+        with open(os.path.join(evdir, self.prop + ".json"), "w") as f:
             json.dump(ev, f, indent=1)
         if not os.environ.get("VERIF_KEEP"):
             shutil.rmtree(self.work, ignore_errors=True)
@@ -198,15 +199,18 @@ def parse_tlc(out):
             name = m.group(1) if m else (m2.group(1) if m2.groups() else "temporal")
             vars_ = {}
             j = i + 1
+            if j < len(lines) and lines[j].startswith("Error: The behavior up to this point is"):
+                j += 1
             blk = []
             while j < len(lines) and not lines[j].startswith("Error:") and not lines[j].startswith("Finished") \
-                    and not lines[j].startswith("Model checking") and len(blk) < 400:
+                    and not lines[j].startswith("Model checking") and not lines[j].startswith("Progress(") and len(blk) < 3000:
                 blk.append(lines[j])
                 j += 1
             txt = "\n".join(blk)
+            # the last state of the behaviour wins
             for vm in re.finditer(r"^(?:/\\ )?(\w+) = (.*)$", txt, re.M):
-                vars_.setdefault(vm.group(1), vm.group(2))
-            r.violations.append((name, vars_, txt[:4000]))
+                vars_[vm.group(1)] = vm.group(2)
+            r.violations.append((name, vars_, txt[-4000:]))
             i = j
             continue
         if ln.startswith("Error:") and "is violated" not in ln:
@@ -325,6 +329,10 @@ def main_wrapper(fn, prop, argv):
         return 2
     except subprocess.TimeoutExpired as e:
         log("INCONCLUSIVE property=%s: timeout %s" % (prop, e))
+        return 2
+    except Exception:     # a defect of the machinery itself is never a verdict
+        import traceback
+        log("INCONCLUSIVE property=%s: internal error in the check\n%s" % (prop, traceback.format_exc()))
         return 2
     return rc
 
